@@ -147,7 +147,7 @@ impl MDBInMemoryShard {
 //@ ret r
 //@ contract
         // the count is the number of xorb records held
-        ensures /*@C09*/ r == self.cas_content@.len(),
+        ensures /*@C09,C10*/ r == self.cas_content@.len(),
 //@ body-start
         proof { axiom_merklehash_total_order(); }
 //@ end
@@ -155,7 +155,7 @@ impl MDBInMemoryShard {
 //@ extract mdb_shard/src/shard_in_memory.rs in `impl MDBInMemoryShard` fn num_file_entries
 //@ ret r
 //@ contract
-        ensures /*@C09*/ r == self.file_content@.len(),
+        ensures /*@C09,C10*/ r == self.file_content@.len(),
 //@ body-start
         proof { axiom_merklehash_total_order(); }
 //@ end
@@ -164,7 +164,7 @@ impl MDBInMemoryShard {
 //@ ret r
 //@ contract
         // empty = no xorb record and no file record (the chunk index only mirrors xorb records)
-        ensures /*@C09*/ r == (self.cas_content@.len() == 0 && self.file_content@.len() == 0),
+        ensures /*@C09,C10*/ r == (self.cas_content@.len() == 0 && self.file_content@.len() == 0),
 //@ body-start
         proof { axiom_merklehash_total_order(); }
 //@ end
@@ -176,8 +176,8 @@ impl MDBInMemoryShard {
         requires math_stored_bytes_on_disk(*self) <= u64::MAX,       // domain: the total fits u64
         ensures
             // the sum over ALL xorb records of `num_bytes_on_disk`, exactly (no wrap)
-            /*@C09*/ r == math_stored_bytes_on_disk(*self),
-            /*@C09*/ r == spec_stored_bytes_on_disk(*self),
+            /*@C09,C10*/ r == math_stored_bytes_on_disk(*self),
+            /*@C09,C10*/ r == spec_stored_bytes_on_disk(*self),
 //@ body-start
         let ghost cm = self.cas_content@;
         proof { axiom_merklehash_total_order(); lemma_contribs_nonneg(); lemma_iter_sums(cm, c_disk()); }
@@ -186,10 +186,10 @@ impl MDBInMemoryShard {
                 cm == self.cas_content@, iter_sums(cm, c_disk()), 0 <= msum(cm, c_disk()) <= u64::MAX,
                 iter_entries(vx_it1.seq(), cm),
                 // no wrap: the accumulator the code uses can hold the total
-                /*@C09*/ msum(cm, c_disk()) <= vx_tmax(vx_acc1),
+                /*@C09,C10*/ msum(cm, c_disk()) <= vx_tmax(vx_acc1),
                 // the accumulator holds the sum over the records visited so far
-                /*@C09*/ vx_acc1 == ssum(own(vx_it1.seq()), c_disk(), vx_it1.index@ as int),
-            ensures /*@C09*/ vx_acc1 == msum(cm, c_disk()),
+                /*@C09,C10*/ vx_acc1 == ssum(own(vx_it1.seq()), c_disk(), vx_it1.index@ as int),
+            ensures /*@C09,C10*/ vx_acc1 == msum(cm, c_disk()),
 //@ end
 
 //@ extract mdb_shard/src/shard_in_memory.rs in `impl MDBInMemoryShard` fn stored_bytes
@@ -199,8 +199,8 @@ impl MDBInMemoryShard {
         requires math_stored_bytes(*self) <= u64::MAX,       // domain: the total fits u64
         ensures
             // the sum over ALL xorb records of `num_bytes_in_cas`, exactly (no wrap)
-            /*@C09*/ r == math_stored_bytes(*self),
-            /*@C09*/ r == spec_stored_bytes(*self),
+            /*@C09,C10*/ r == math_stored_bytes(*self),
+            /*@C09,C10*/ r == spec_stored_bytes(*self),
 //@ body-start
         let ghost cm = self.cas_content@;
         proof { axiom_merklehash_total_order(); lemma_contribs_nonneg(); lemma_iter_sums(cm, c_cas()); }
@@ -208,9 +208,9 @@ impl MDBInMemoryShard {
             invariant
                 cm == self.cas_content@, iter_sums(cm, c_cas()), 0 <= msum(cm, c_cas()) <= u64::MAX,
                 iter_entries(vx_it1.seq(), cm),
-                /*@C09*/ msum(cm, c_cas()) <= vx_tmax(vx_acc1),
-                /*@C09*/ vx_acc1 == ssum(own(vx_it1.seq()), c_cas(), vx_it1.index@ as int),
-            ensures /*@C09*/ vx_acc1 == msum(cm, c_cas()),
+                /*@C09,C10*/ msum(cm, c_cas()) <= vx_tmax(vx_acc1),
+                /*@C09,C10*/ vx_acc1 == ssum(own(vx_it1.seq()), c_cas(), vx_it1.index@ as int),
+            ensures /*@C09,C10*/ vx_acc1 == msum(cm, c_cas()),
 //@ end
 
 //@ extract mdb_shard/src/shard_in_memory.rs in `impl MDBInMemoryShard` fn materialized_bytes
@@ -220,8 +220,8 @@ impl MDBInMemoryShard {
         requires math_materialized_bytes(*self) <= u64::MAX,       // domain: the total fits u64 (each segment value is a u32)
         ensures
             // the sum over ALL file records of the sum of `unpacked_segment_bytes` over ALL their segments, exactly (no wrap)
-            /*@C09*/ r == math_materialized_bytes(*self),
-            /*@C09*/ r == spec_materialized_bytes(*self),
+            /*@C09,C10*/ r == math_materialized_bytes(*self),
+            /*@C09,C10*/ r == spec_materialized_bytes(*self),
 //@ body-start
         let ghost fm = self.file_content@;
         proof { axiom_merklehash_total_order(); lemma_contribs_nonneg(); lemma_iter_sums(fm, c_mat()); lemma_seg_steps_ok(); }
@@ -229,18 +229,18 @@ impl MDBInMemoryShard {
             invariant
                 fm == self.file_content@, iter_sums(fm, c_mat()), 0 <= msum(fm, c_mat()) <= u64::MAX, seg_steps_ok(),
                 iter_entries(vx_it1.seq(), fm),
-                /*@C09*/ msum(fm, c_mat()) <= vx_tmax(vx_acc1),
-                /*@C09*/ vx_acc1 == ssum(own(vx_it1.seq()), c_mat(), vx_it1.index@ as int),
-            ensures /*@C09*/ vx_acc1 == msum(fm, c_mat()),
+                /*@C09,C10*/ msum(fm, c_mat()) <= vx_tmax(vx_acc1),
+                /*@C09,C10*/ vx_acc1 == ssum(own(vx_it1.seq()), c_mat(), vx_it1.index@ as int),
+            ensures /*@C09,C10*/ vx_acc1 == msum(fm, c_mat()),
 //@ loop 2
             invariant
                 seg_steps_ok(), refs_of(vx_it2.seq(), file.segments@), file_bytes(*file) <= u64::MAX,
                 // no wrap: the accumulator the code uses for ONE file can hold that file's total (which is only bounded by the
                 // domain bound on the whole sum: a single file may have >= 2^32 bytes although every segment value is a u32)
-                /*@C09*/ file_bytes(*file) <= vx_tmax(vx_acc2),
+                /*@C09,C10*/ file_bytes(*file) <= vx_tmax(vx_acc2),
                 // the accumulator holds the sum over the segments visited so far
-                /*@C09*/ vx_acc2 == seg_sum(file.segments@, vx_it2.index@ as int),
-            ensures /*@C09*/ vx_acc2 == file_bytes(*file),
+                /*@C09,C10*/ vx_acc2 == seg_sum(file.segments@, vx_it2.index@ as int),
+            ensures /*@C09,C10*/ vx_acc2 == file_bytes(*file),
 //@ end
 }
 
@@ -254,7 +254,7 @@ impl MDBShardInfo {
         ensures
             r == self.metadata.cas_lookup_num_entry,
             // on a shard written from `mdb`: the number of xorb records of `mdb` (= the in-memory getter's value)
-            /*@C09*/ forall|mdb: MDBInMemoryShard, dl: int, fsz: int, csz: int, nh: int| #[trigger] footer_written(mdb, *self, dl, fsz, csz, nh)
+            /*@C09,C10*/ forall|mdb: MDBInMemoryShard, dl: int, fsz: int, csz: int, nh: int| #[trigger] footer_written(mdb, *self, dl, fsz, csz, nh)
                 ==> r == mdb.cas_content@.len(),
 //@ end
 
@@ -263,7 +263,7 @@ impl MDBShardInfo {
 //@ contract
         ensures
             r == self.metadata.file_lookup_num_entry,
-            /*@C09*/ forall|mdb: MDBInMemoryShard, dl: int, fsz: int, csz: int, nh: int| #[trigger] footer_written(mdb, *self, dl, fsz, csz, nh)
+            /*@C09,C10*/ forall|mdb: MDBInMemoryShard, dl: int, fsz: int, csz: int, nh: int| #[trigger] footer_written(mdb, *self, dl, fsz, csz, nh)
                 ==> r == mdb.file_content@.len(),
 //@ end
 
@@ -273,7 +273,7 @@ impl MDBShardInfo {
         ensures
             r == self.metadata.chunk_lookup_num_entry,
             // the number of chunk-lookup entries written
-            /*@C09*/ forall|mdb: MDBInMemoryShard, dl: int, fsz: int, csz: int, nh: int| #[trigger] footer_written(mdb, *self, dl, fsz, csz, nh)
+            /*@C09,C10*/ forall|mdb: MDBInMemoryShard, dl: int, fsz: int, csz: int, nh: int| #[trigger] footer_written(mdb, *self, dl, fsz, csz, nh)
                 ==> r == nh,
 //@ end
 
@@ -283,7 +283,7 @@ impl MDBShardInfo {
         ensures
             r.0 == self.metadata.file_info_offset && r.1 == self.metadata.cas_info_offset,
             // right after the 48-byte header, as long as the file section
-            /*@C09*/ forall|mdb: MDBInMemoryShard, dl: int, fsz: int, csz: int, nh: int| #[trigger] footer_written(mdb, *self, dl, fsz, csz, nh)
+            /*@C09,C10*/ forall|mdb: MDBInMemoryShard, dl: int, fsz: int, csz: int, nh: int| #[trigger] footer_written(mdb, *self, dl, fsz, csz, nh)
                 ==> r.0 == 48 && r.1 == r.0 + fsz,
 //@ end
 
@@ -293,7 +293,7 @@ impl MDBShardInfo {
         ensures
             r.0 == self.metadata.cas_info_offset && r.1 == self.metadata.file_lookup_offset,
             // starts where the file section ends, as long as the xorb section
-            /*@C09*/ forall|mdb: MDBInMemoryShard, dl: int, fsz: int, csz: int, nh: int| #[trigger] footer_written(mdb, *self, dl, fsz, csz, nh)
+            /*@C09,C10*/ forall|mdb: MDBInMemoryShard, dl: int, fsz: int, csz: int, nh: int| #[trigger] footer_written(mdb, *self, dl, fsz, csz, nh)
                 ==> r.0 == 48 + fsz && r.1 == r.0 + csz,
 //@ end
 
@@ -303,7 +303,7 @@ impl MDBShardInfo {
         ensures
             r.0 == self.metadata.file_lookup_offset && r.1 == self.metadata.cas_lookup_offset,
             // starts where the xorb section ends; one 12-byte entry per file record
-            /*@C09*/ forall|mdb: MDBInMemoryShard, dl: int, fsz: int, csz: int, nh: int| #[trigger] footer_written(mdb, *self, dl, fsz, csz, nh)
+            /*@C09,C10*/ forall|mdb: MDBInMemoryShard, dl: int, fsz: int, csz: int, nh: int| #[trigger] footer_written(mdb, *self, dl, fsz, csz, nh)
                 ==> r.0 == 48 + fsz + csz && r.1 == r.0 + 12 * mdb.file_content@.len(),
 //@ end
 
@@ -313,7 +313,7 @@ impl MDBShardInfo {
         ensures
             r.0 == self.metadata.cas_lookup_offset && r.1 == self.metadata.chunk_lookup_offset,
             // starts where the file lookup ends; one 12-byte entry per xorb record
-            /*@C09*/ forall|mdb: MDBInMemoryShard, dl: int, fsz: int, csz: int, nh: int| #[trigger] footer_written(mdb, *self, dl, fsz, csz, nh)
+            /*@C09,C10*/ forall|mdb: MDBInMemoryShard, dl: int, fsz: int, csz: int, nh: int| #[trigger] footer_written(mdb, *self, dl, fsz, csz, nh)
                 ==> r.0 == 48 + fsz + csz + 12 * mdb.file_content@.len() && r.1 == r.0 + 12 * mdb.cas_content@.len(),
 //@ end
 
@@ -323,7 +323,7 @@ impl MDBShardInfo {
         ensures
             r.0 == self.metadata.chunk_lookup_offset && r.1 == self.metadata.footer_offset,
             // starts where the xorb lookup ends; one 16-byte entry per chunk; the 200-byte footer follows and ends the shard
-            /*@C09*/ forall|mdb: MDBInMemoryShard, dl: int, fsz: int, csz: int, nh: int| #[trigger] footer_written(mdb, *self, dl, fsz, csz, nh)
+            /*@C09,C10*/ forall|mdb: MDBInMemoryShard, dl: int, fsz: int, csz: int, nh: int| #[trigger] footer_written(mdb, *self, dl, fsz, csz, nh)
                 ==> r.0 == 48 + fsz + csz + 12 * mdb.file_content@.len() + 12 * mdb.cas_content@.len() && r.1 == r.0 + 16 * nh && r.1 + 200 == dl,
 //@ end
 
@@ -334,7 +334,7 @@ impl MDBShardInfo {
         ensures
             r == self.metadata.footer_offset + 200,
             // the size of the serialized shard: the number of bytes written
-            /*@C09*/ forall|mdb: MDBInMemoryShard, dl: int, fsz: int, csz: int, nh: int| #[trigger] footer_written(mdb, *self, dl, fsz, csz, nh)
+            /*@C09,C10*/ forall|mdb: MDBInMemoryShard, dl: int, fsz: int, csz: int, nh: int| #[trigger] footer_written(mdb, *self, dl, fsz, csz, nh)
                 ==> r == dl,
 //@ end
 
@@ -344,7 +344,7 @@ impl MDBShardInfo {
         ensures
             r == self.metadata.stored_bytes_on_disk,
             // the byte totals of the footer are the in-memory accounting: the mathematical sums, under the domain
-            /*@C09*/ forall|mdb: MDBInMemoryShard, dl: int, fsz: int, csz: int, nh: int| #[trigger] footer_written(mdb, *self, dl, fsz, csz, nh) && totals_fit(mdb)
+            /*@C09,C10*/ forall|mdb: MDBInMemoryShard, dl: int, fsz: int, csz: int, nh: int| #[trigger] footer_written(mdb, *self, dl, fsz, csz, nh) && totals_fit(mdb)
                 ==> r == math_stored_bytes_on_disk(mdb),
 //@ body-start
         proof { lemma_totals_nonneg(); }
@@ -355,7 +355,7 @@ impl MDBShardInfo {
 //@ contract
         ensures
             r == self.metadata.materialized_bytes,
-            /*@C09*/ forall|mdb: MDBInMemoryShard, dl: int, fsz: int, csz: int, nh: int| #[trigger] footer_written(mdb, *self, dl, fsz, csz, nh) && totals_fit(mdb)
+            /*@C09,C10*/ forall|mdb: MDBInMemoryShard, dl: int, fsz: int, csz: int, nh: int| #[trigger] footer_written(mdb, *self, dl, fsz, csz, nh) && totals_fit(mdb)
                 ==> r == math_materialized_bytes(mdb),
 //@ body-start
         proof { lemma_totals_nonneg(); }
@@ -366,7 +366,7 @@ impl MDBShardInfo {
 //@ contract
         ensures
             r == self.metadata.stored_bytes,
-            /*@C09*/ forall|mdb: MDBInMemoryShard, dl: int, fsz: int, csz: int, nh: int| #[trigger] footer_written(mdb, *self, dl, fsz, csz, nh) && totals_fit(mdb)
+            /*@C09,C10*/ forall|mdb: MDBInMemoryShard, dl: int, fsz: int, csz: int, nh: int| #[trigger] footer_written(mdb, *self, dl, fsz, csz, nh) && totals_fit(mdb)
                 ==> r == math_stored_bytes(mdb),
 //@ body-start
         proof { lemma_totals_nonneg(); }
@@ -379,14 +379,14 @@ impl MDBShardInfo {
 proof fn lemma_footer_equals_accounting(mdb: MDBInMemoryShard, sh: MDBShardInfo, data_len: int, fsz: int, csz: int, nh: int)
     requires footer_written(mdb, sh, data_len, fsz, csz, nh), totals_fit(mdb),
     ensures
-        /*@C09*/ sh.metadata.cas_lookup_num_entry == mdb.cas_content@.len(),
-        /*@C09*/ sh.metadata.file_lookup_num_entry == mdb.file_content@.len(),
-        /*@C09*/ sh.metadata.footer_offset + 200 == data_len,
-        /*@C09*/ sh.metadata.stored_bytes_on_disk == math_stored_bytes_on_disk(mdb),
-        /*@C09*/ sh.metadata.materialized_bytes == math_materialized_bytes(mdb),
-        /*@C09*/ sh.metadata.stored_bytes == math_stored_bytes(mdb),
+        /*@C09,C10*/ sh.metadata.cas_lookup_num_entry == mdb.cas_content@.len(),
+        /*@C09,C10*/ sh.metadata.file_lookup_num_entry == mdb.file_content@.len(),
+        /*@C09,C10*/ sh.metadata.footer_offset + 200 == data_len,
+        /*@C09,C10*/ sh.metadata.stored_bytes_on_disk == math_stored_bytes_on_disk(mdb),
+        /*@C09,C10*/ sh.metadata.materialized_bytes == math_materialized_bytes(mdb),
+        /*@C09,C10*/ sh.metadata.stored_bytes == math_stored_bytes(mdb),
         // the five byte ranges tile [48, footer_offset) in the order file section, xorb section, file / xorb / chunk lookup
-        /*@C09*/ sh.metadata.file_info_offset == 48 <= sh.metadata.cas_info_offset <= sh.metadata.file_lookup_offset
+        /*@C09,C10*/ sh.metadata.file_info_offset == 48 <= sh.metadata.cas_info_offset <= sh.metadata.file_lookup_offset
             <= sh.metadata.cas_lookup_offset <= sh.metadata.chunk_lookup_offset <= sh.metadata.footer_offset,
 {
     lemma_contribs_nonneg();
